@@ -60,6 +60,9 @@ structure ReqSt where
   replied : Bool
   /-- the handler returned MHD_NO -/
   failed : Bool
+  /-- the upgrade handler has been called: the connection belongs to the application; nothing but the
+      completion (and free callbacks) may follow for this request -/
+  upgraded : Bool := false
   deriving DecidableEq, Repr
 
 inductive PSt where
@@ -91,8 +94,8 @@ def step : PSt → LEv → PSt
   | .req r, .handler site off len taken ctxIn ctxOut ret => handlerStep r site off len taken ctxIn ctxOut ret
   | .req r, .queued => if r.replied then .bad else .req { r with replied := true }
   | .req r, .completed _ ctx => if ctx = r.ctx then .idle else .bad
-  | .req r, .interimSent => if r.replied then .req { r with replied := false, site := .first } else .bad
-  | .req r, .upgrade => if r.replied then .req r else .bad
+  | .req r, .interimSent => if r.replied && !r.upgraded then .req { r with replied := false, site := .first } else .bad
+  | .req r, .upgrade => if r.replied && !r.upgraded then .req { r with upgraded := true } else .bad
   | .idle, .queued => .idle          -- MHD's own error reply to a request the application never saw
   | .idle, .invalidate => .idle
   | .idle, .freeCb _ => .idle
